@@ -60,6 +60,14 @@ YOUR TASK: write TWO different changes (A and B) to the project's non-test sourc
 Earlier reviewers already delivered these changes for this property — do NOT repeat them or close variants of them:
 {prev}
 
+Already known limitations of the unchanged project — do NOT spend time on them and do not build a change on them: an unlabelled break
+behind a yield inside a switch clause leaves the enclosing loop; `continue` skips a yielding for-post statement; three-clause loop
+variables are shared across iterations (init hoisted); range over an ARRAY value iterates the live array / does not build for a
+non-addressable array / dereferences a nil *[N]T; a struct that embeds Iter[T] loses the field name; a local variable named like the
+element type breaks the output; `for range it {{}}` without a variable is rejected; cogen panics when a co file imports a package that
+consists of co files only; `return f()` in a generator is evaluated and dropped; advancing an iterator again after a panic escaped
+from it re-runs the pending step.
+
 DELIVERABLES (all inside {wt}):
   {wt}/A.patch, {wt}/B.patch   — `git diff` of the project files only (relative to HEAD, must apply with `git apply` to a clean
                                   checkout of HEAD; do not include the demo directories or patch files in the diff)
